@@ -337,6 +337,7 @@ Definition ps_init : pstate :=
      ps_target_json := None |}.
 
 Record parsed : Type := {
+  p_args : list argument;                 (* ParsedArguments::arguments, as parsed *)
   p_arguments : list (bytes * option bytes);
   p_output_dir : bytes;
   p_externs : list bytes;
@@ -613,7 +614,8 @@ Definition finish (exists_ : bytes -> bool) (s : pstate) : parse_result :=
         let gcno := if ps_gcno s && has "link"
                     then Some (opt_app crate_name (ps_extra_filename s) ++ bs ".gcno") else None in
         let staticlibs := filter_map (find_staticlib exists_ (ps_static_link_paths s)) (ps_static_lib_names s) in
-        PROk {| p_arguments := map arg_pair (ps_args s);
+        PROk {| p_args := ps_args s;
+                p_arguments := map arg_pair (ps_args s);
                 p_output_dir := output_dir;
                 p_externs := sort_paths (ps_externs s);
                 p_crate_link_paths := ps_crate_link_paths s;
@@ -753,3 +755,32 @@ Definition rustc_static_pick (exists_ : bytes -> bool) (dirs : list bytes) (name
 (* no directory holds <NAME>.lib or <NAME>.a, the two spellings the code also accepts (finding C05-S23 otherwise) *)
 Definition alt_spelling_free (exists_ : bytes -> bool) (dirs : list bytes) (name : bytes) : bool :=
   forallb (fun d => negb (exists_ (path_join d (name ++ bs ".lib"))) && negb (exists_ (path_join d (name ++ bs ".a")))) dirs.
+
+(* ---------- the compile command (RustCompilation::generate_compile_commands) ---------- *)
+
+(* Argument::iter_os_strings *)
+Definition iter_os_strings (a : argument) : list bytes :=
+  match a with
+  | ARaw s | AUnknownFlag s => [s]
+  | AFlag s _ => [s]
+  | AWithValue s _ v (CanBeSeparated d) | AWithValue s _ v (Concatenated d) =>
+      let val := into_arg v in
+      [s ++ match d, val with
+            | Some dc, _ :: _ => [dc]
+            | _, _ => []
+            end ++ val]
+  | AWithValue s _ v _ => [s; into_arg v]
+  end.
+
+Definition is_json (a : argument) : bool :=
+  match a with AWithValue _ Json _ _ => true | AFlag _ Json => true | _ => false end.
+
+(* generate_hash_key: "Request color output unless json was requested. The client will strip colors if needed."
+   The colour option of the compile command is a CONSTANT: `--color` arguments of the request never reach the key
+   (parse_arguments drops them), so they must not reach the compile command either, or one key would stand for
+   compiles with different diagnostics. *)
+Definition colour_suffix (has_json : bool) : list bytes :=
+  if has_json then [] else [bs "--color"; bs "always"].
+
+Definition compile_args (p : parsed) : list bytes :=
+  flat_map iter_os_strings (p_args p) ++ colour_suffix (p_has_json p).
